@@ -64,6 +64,8 @@ def runN (rules : List Rule) : Nat → EG → Nat → EG × Nat
   | 0, g, it => (g, it)
   | n + 1, g, it =>
     let (g', ch) := stepRules egFuel g rules
+    -- an iteration in which an action failed (`panic`, merge conflict) aborts the whole `run`
+    if g'.err then (g', it + 1) else
     if ch then runN rules n g' (it + 1) else (g', it + 1)
 
 def egStep (s : EgSt) (toks : List String) : EgSt × String :=
